@@ -739,6 +739,23 @@ class Gen(object):
         meta = m.get('meta') or {}
         cur = copy.deepcopy(meta.get(prop) or [])
         r = rng.random()
+        if prop in ('unique_together', 'index_together') and \
+                self.cfg.get('meta_multi') and rng.random() < 0.6:
+            # replace the whole list by 2-3 fresh tuples at once (set-typed
+            # intermediates in SQL generation: C14)
+            new = []
+            for _ in range(rng.choice([2, 3, 3])):
+                t = self.gen_together(m)
+                if t and t not in new and sorted(t) not in [sorted(x)
+                                                            for x in new]:
+                    if prop == 'unique_together' and not _unique_ok(
+                            m, t, trows):
+                        continue
+                    new.append(t)
+            if len(new) < 2 or new == cur:
+                return None
+            return {'op': 'ChangeMeta', 'model': m['name'], 'prop': prop,
+                    'value': new}
         if prop in ('unique_together', 'index_together'):
             if cur and r < 0.4:
                 cur.pop(rng.randrange(len(cur)))
